@@ -498,14 +498,23 @@ def check(ctx):
             cs.append("q:1/2")
         return "%s %s" % (name.lower(), " ".join(cs))
 
+    # a count that is not an integer is no valid parameter either (the signature, not the constructor, refuses it)
+    bad_kind = ["Binomial(2.5, 0.5)", "Binomial(7/2, 1/2)", "Binomial(2.0000001, 1/2)", "UniformInt(1, 2.5)", "UniformInt(1/2, 3)",
+                "UniformInt(0.5, 2.5)", "UniformInt(-3/2, 2)", "P(Binomial(2.5, 0.5) = 1)", "P(UniformInt(1, 2.5) = 2)",
+                "X = UniformInt(1, 5/2); P(X <= 2)", "mean(Binomial(5/2, 1/2))"]
+    for t in bad_kind:
+        r = run(t)
+        ctx.count("invalid-kind:" + t, nontrivial=True, bucket="invalid-parameters")
+        if r[0] != "err" or str(r[1]).startswith("py:") or r[1] == "diverges":
+            ctx.violation("invalid-accepted:" + t, t, "rejected with a diagnosed error (a non-integer count / bound)", repr(r)[:120], "ctx.real.value(%r)" % t)
     for t in bad:
         r = run(t)
         ctx.count("invalid:" + t, nontrivial=True, bucket="invalid-parameters")
-        if r != ("err", "invalidparam"):
-            ctx.violation("invalid-accepted:" + t[:t.index("(")], t, "InvalidParameterException", repr(r), "ctx.real.value(%r)" % t)
+        if r[0] != "err" or str(r[1]).startswith("py:") or r[1] == "diverges":        # which diagnosed error: not the property's business
+            ctx.violation("invalid-accepted:" + t[:t.index("(")], t, "rejected with a diagnosed error", repr(r), "ctx.real.value(%r)" % t)
         sp = spec_of_text(t)
         if sp:
-            cases.append(("prob %s | valid" % sp, "err invalidparam" if r == ("err", "invalidparam") else "ok", ("valid", None, t)))
+            cases.append(("prob %s | valid" % sp, "err invalidparam" if r[0] == "err" else "ok", ("valid", None, t)))
     for t in good:
         r = run(t)
         ctx.count("valid:" + t, nontrivial=False, bucket="valid-parameters")
